@@ -145,10 +145,13 @@ impl Pair {
                     self.pump(&mut lo, &mut lm).await;
                     let next = self.px.q.iter().map(|x| x.0).min();
                     let now = self.now();
+                    // frames that the endpoints transmit on their own timers while time passes must be forwarded when
+                    // they are sent, not at the end of the step: time passes in slices of at most 100 ms
                     let to = match next {
                         Some(n) if n <= target => n.max(now),
                         _ => target,
-                    };
+                    }
+                    .min(now + 100);
                     if to > now {
                         tokio::time::sleep(Duration::from_millis((to - now) as u64)).await;
                         quiesce().await;
